@@ -153,9 +153,11 @@ package twig
 //@ func trimLeadingWhitespace props: C13 C04 C14
 //@   function
 //@   ensures ret == str_trimleft(s, " \t\n\r")
+//@   flag replay_go ret0 == specTrimLeftWS(s)
 //@ func trimTrailingWhitespace props: C13 C04 C14
 //@   function
 //@   ensures ret == str_trimright(s, " \t\n\r")
+//@   flag replay_go ret0 == specTrimRightWS(s)
 
 //@ define isStartTrim(T) (T == TOKEN_VAR_START_TRIM || T == TOKEN_BLOCK_START_TRIM)
 //@ define isEndTrim(T) (T == TOKEN_VAR_END_TRIM || T == TOKEN_BLOCK_END_TRIM)
@@ -654,6 +656,7 @@ package twig
 //@ func escapeHTML props: C07
 //@   function
 //@   ensures ret == htmlEscape(s)
+//@   flag replay_go ret0 == specHTMLEscape(s)
 //@ func (*CoreExtension).filterEscape props: C07
 //@   ensures err == nil && typeIs(ret0, "string") && unboxAs(ret0, "string") == htmlEscape(fn_toString_0(value))
 //@ func toString props: C07 C19
